@@ -1169,3 +1169,194 @@ def rule_no_hardcoded_containers(repo, res):
                                     "pvl.new) groups and objects are told apart differently here than everywhere else",
                                     where=f"pvl/{repo.classes[c].module.name}.py:{x.lineno}"))
     res.floor("encoder/parser methods scanned for hard-coded container classes", n, 60)
+
+
+def rule_lexer_args(repo, res):
+    """LEXER-ARGS: the parser lexes the text with its own grammar and its own decoder: every call of self.lexer(...) in the
+    parser classes passes g = self.grammar and d = self.decoder (canonical form; keyword or positional).  The lexer
+    enforces the character set and cuts lexemes with the grammar it is given; the rest of the parser works with
+    self.grammar -- a different object there (the decoder's grammar, a fresh default) makes the two disagree as soon as a
+    caller combines a grammar with a decoder of another dialect."""
+    from .canon import canon
+    n = 0
+    for cname in sorted(repo.subclasses("PVLParser")):
+        ci = repo.classes[cname]
+        for mname, fn0 in ci.methods.items():
+            if not any(isinstance(x, ast.Call) and norm(x.func) == "self.lexer" for x in ast.walk(fn0)):
+                continue
+            fn = canon(repo, cname, fn0, module=ci.module.name)
+            for call in [x for x in ast.walk(fn) if isinstance(x, ast.Call) and norm(x.func) == "self.lexer"]:
+                n += 1
+                kw = {k.arg: k.value for k in call.keywords if k.arg}
+                g = kw.get("g", call.args[1] if len(call.args) > 1 else None)
+                d = kw.get("d", call.args[2] if len(call.args) > 2 else None)
+                for what, got, want in (("grammar (g)", g, "self.grammar"), ("decoder (d)", d, "self.decoder")):
+                    ok = got is not None and norm(got) == want
+                    res.oblige("LEXER-ARGS", f"{cname}.{mname}: the lexer gets {want} as its {what}", ok=ok)
+                    if not ok:
+                        res.add(Finding("LEXER-ARGS", f"{cname}.{mname}", f"lexer {what} is {norm(got) if got is not None else 'not given'}",
+                                        f"{cname}.{mname} calls the lexer with {what} = `{norm(got) if got is not None else '<default>'}` instead of "
+                                        f"{want}: the character set the lexer enforces and the lexeme boundaries it draws follow another "
+                                        "grammar/decoder than the parser's own", where=f"pvl/parser.py:{call.lineno}"))
+    res.floor("calls of self.lexer in the parser classes", n, 1)
+
+
+# ------------------------------------------------------------------ ZIP-LEN
+class _Len:
+    """symbolic length: constant + sum of coeff * |symbol|"""
+    def __init__(self, const=0, syms=None):
+        self.const, self.syms = const, {k: v for k, v in (syms or {}).items() if v}
+
+    def __add__(self, o):
+        s = dict(self.syms)
+        for k, v in o.syms.items():
+            s[k] = s.get(k, 0) + v
+        return _Len(self.const + o.const, s)
+
+    def scale_by_symbol(self, sym):
+        """self * |sym| for a constant self"""
+        if self.syms:
+            return None
+        return _Len(0, {sym: self.const})
+
+    def key(self):
+        return (self.const, tuple(sorted(self.syms.items())))
+
+    def __repr__(self):
+        parts = ([str(self.const)] if self.const or not self.syms else []) + [(f"{v}*" if v != 1 else "") + f"len({k})" for k, v in sorted(self.syms.items())]
+        return " + ".join(parts)
+
+
+def _list_length(e, fn, at, depth=0):
+    """symbolic length of the list expression *e* as evaluated at statement *at* of function *fn*; None when unknown"""
+    if depth > 6:
+        return None
+    if isinstance(e, (ast.List, ast.Tuple)):
+        if any(isinstance(x, ast.Starred) for x in e.elts):
+            return None
+        return _Len(len(e.elts))
+    if isinstance(e, ast.BinOp) and isinstance(e.op, ast.Add):
+        a, b = _list_length(e.left, fn, at, depth + 1), _list_length(e.right, fn, at, depth + 1)
+        return None if a is None or b is None else a + b
+    if isinstance(e, ast.BinOp) and isinstance(e.op, ast.Mult):
+        lst, num = (e.left, e.right) if isinstance(e.left, (ast.List, ast.Tuple)) else (e.right, e.left)
+        a = _list_length(lst, fn, at, depth + 1) if isinstance(lst, (ast.List, ast.Tuple)) else None
+        if a is None:
+            return None
+        if isinstance(num, ast.Constant) and isinstance(num.value, int):
+            return _Len(a.const * num.value) if not a.syms else None
+        if isinstance(num, ast.Call) and norm(num.func) == "len" and len(num.args) == 1:
+            inner = _list_length(num.args[0], fn, at, depth + 1)
+            if inner is not None and not inner.const and len(inner.syms) == 1 and list(inner.syms.values()) == [1]:
+                return a.scale_by_symbol(next(iter(inner.syms)))
+            if inner is not None and not inner.syms:
+                return _Len(a.const * inner.const) if not a.syms else None
+        return None
+    if isinstance(e, ast.ListComp) and len(e.generators) == 1 and not e.generators[0].ifs:
+        return _list_length(e.generators[0].iter, fn, at, depth + 1)
+    if isinstance(e, ast.Call):
+        f = norm(e.func)
+        if f in ("list", "tuple", "sorted", "reversed") and len(e.args) == 1:
+            return _list_length(e.args[0], fn, at, depth + 1)
+        if isinstance(e.func, ast.Attribute) and e.func.attr in ("keys", "values", "items") and not e.args:
+            return _list_length(e.func.value, fn, at, depth + 1)
+        return None
+    if isinstance(e, ast.Name):
+        params = {a.arg for a in fn.args.posonlyargs + fn.args.args + fn.args.kwonlyargs}
+        # the latest plain assignment of the name in the block of *at* or an enclosing block, before *at*
+        blk_stmt = at
+        while blk_stmt is not None and blk_stmt is not fn:
+            parent = getattr(blk_stmt, "_parent", None)
+            if parent is None:
+                break
+            for field in ("body", "orelse", "finalbody"):
+                block = getattr(parent, field, None)
+                if isinstance(block, list) and blk_stmt in block:
+                    idx = block.index(blk_stmt)
+                    for j in range(idx - 1, -1, -1):
+                        st = block[j]
+                        if isinstance(st, ast.Assign) and len(st.targets) == 1 and isinstance(st.targets[0], ast.Name) and st.targets[0].id == e.id:
+                            base = _Len(0) if (isinstance(st.value, ast.Call) and norm(st.value.func) == "list" and not st.value.args) \
+                                else _list_length(st.value, fn, st, depth + 1)
+                            if base is None:
+                                return None
+                            # growth between the assignment and *at*: x.append(..) directly in the block, or once per
+                            # iteration in a for loop directly in the block
+                            total = base
+                            for mid in block[j + 1:idx]:
+                                for x in ast.walk(mid):
+                                    if isinstance(x, ast.Call) and isinstance(x.func, ast.Attribute) and isinstance(x.func.value, ast.Name) \
+                                            and x.func.value.id == e.id:
+                                        if x.func.attr != "append":
+                                            return None
+                                        holder = getattr(getattr(x, "_parent", None), "_parent", None)
+                                        if holder is parent or getattr(x, "_parent", None) is mid and mid in block and isinstance(mid, ast.Expr):
+                                            total = total + _Len(1)
+                                        elif isinstance(mid, ast.For) and getattr(x, "_parent", None) in mid.body:
+                                            it = _list_length(mid.iter, fn, mid, depth + 1)
+                                            if it is None or it.const or len(it.syms) != 1:
+                                                return None
+                                            total = total + _Len(0, dict(it.syms))
+                                        else:
+                                            return None
+                                    if isinstance(x, (ast.Assign, ast.AugAssign)) and any(
+                                            isinstance(t, ast.Name) and t.id == e.id for t in (x.targets if isinstance(x, ast.Assign) else [x.target])):
+                                        return None
+                            return total
+                        if any(isinstance(x, ast.Name) and x.id == e.id and isinstance(x.ctx, ast.Store) for x in ast.walk(st)):
+                            return None
+            blk_stmt = parent
+        if e.id in params:
+            return _Len(0, {e.id: 1})
+        return None
+    if isinstance(e, ast.Attribute):
+        return _Len(0, {norm(e): 1})
+    return None
+
+
+def rule_zip_len(repo, res):
+    """ZIP-LEN: pvl_validate lays its report out by zipping a list of cells with a list of column widths
+    (build_line); zip stops at the shorter list, so a width list sized by anything but the number of cells silently drops
+    columns.  For every call of build_line(cells, widths) in the module the symbolic lengths of the two arguments (list
+    displays, + and * len(x), comprehensions, append-per-iteration accumulators) are equal."""
+    if "pvl_validate" not in repo.modules:
+        raise AnalysisError("anchor vanished: pvl/pvl_validate.py")
+    mod = repo.module("pvl_validate")
+    if "build_line" not in mod.functions:
+        raise AnalysisError("anchor vanished: pvl_validate.build_line")
+    bl = mod.functions["build_line"]
+    if not any(isinstance(x, ast.Call) and norm(x.func) == "zip" for x in ast.walk(bl)):
+        res.oblige("ZIP-LEN", "build_line no longer pairs cells and widths with zip()", ok=True, nontrivial=False)
+        return
+    n = 0
+    from .inline import inline_all, set_parents
+    for fname, fn0 in mod.functions.items():
+        try:
+            fn = inline_all(repo, None, fn0, module="pvl_validate")
+            set_parents(fn, getattr(fn0, "_parent", None))
+        except Exception:
+            fn = fn0
+        params = {a.arg for a in fn.args.posonlyargs + fn.args.args + fn.args.kwonlyargs}
+        for st in [s for s in ast.walk(fn) if isinstance(s, ast.stmt)]:
+            for call in [x for x in ast.walk(st) if isinstance(x, ast.Call) and norm(x.func) == "build_line" and len(x.args) >= 2]:
+                if any(isinstance(a_, ast.Name) and a_.id in params for a_ in call.args[:2]):
+                    continue         # a list handed in by the caller: decided where the helper is read in place
+                # attribute the call to its innermost statement only
+                inner = call
+                while not isinstance(inner, ast.stmt):
+                    inner = getattr(inner, "_parent", None)
+                if inner is not st:
+                    continue
+                a, b = _list_length(call.args[0], fn, st), _list_length(call.args[1], fn, st)
+                if a is None or b is None:
+                    res.notes.append(f"ZIP-LEN: lengths of `{norm(call, 80)}` in {fname} not derivable")
+                    continue
+                n += 1
+                ok = a.key() == b.key()
+                res.oblige("ZIP-LEN", f"pvl_validate.{fname}: `{norm(call, 60)}` pairs {a!r} cells with {b!r} widths", ok=ok)
+                if not ok:
+                    res.add(Finding("ZIP-LEN", f"pvl_validate.{fname}", f"`{norm(call, 60)}`",
+                                    f"pvl_validate.{fname} calls `{norm(call, 80)}` with {a!r} cells and {b!r} widths: build_line zips "
+                                    "the two, so the report silently loses the columns beyond the shorter list (dialects are missing "
+                                    "from the table although they were evaluated)", where=f"pvl/pvl_validate.py:{call.lineno}"))
+    res.floor("build_line calls with derivable lengths", n, 3)
